@@ -10,6 +10,7 @@ mod p02;
 mod p03;
 mod p04;
 mod p05;
+mod p06;
 mod p17;
 mod p18;
 mod p19;
@@ -79,6 +80,7 @@ fn main() {
         "C03" => p03::run(&mut c),
         "C04" => p04::run(&mut c),
         "C05" => p05::run(&mut c),
+        "C06" => p06::run(&mut c),
         "C17" => p17::run(&mut c),
         "C18" => p18::run(&mut c),
         "C19" => p19::run(&mut c),
